@@ -342,6 +342,8 @@ def ls2(F, R):
 def ls3(F, R):
     fn = F.fn("FatVolume::find_entry_in_block")
     for (b, i, v) in ok_returns(fn):
+        if has_sub(v, lambda q: q[0] == "agg" and q[2] and q[2].endswith("Option::None")):
+            continue    # "not in this block, keep going" (checked by LS7)
         ok1, _ = guarded(fn, b, g_call("OnDiskDirEntry::matches", True))
         ok2, _ = guarded(fn, b, g_call("OnDiskDirEntry::is_end", False))
         R.require(ok1, fn, "hit-matches", "Ok(entry) reachable without matches()", fn.loc(b, i))
